@@ -95,6 +95,10 @@ def convert(raw, sid):
         hp = {"prog": "const", "children": []}
     elif prog == "first":
         hp = {"prog": "const", "children": [desired(names[0])]}
+    elif prog == "badlabel":
+        bad = desired(names[0])
+        bad["labels"] = {"app": "wrong"}
+        hp = {"prog": "const", "children": [bad]}
     elif prog == "all":
         hp = {"prog": "const", "children": [desired(n) for n in names]}
     else:
